@@ -61,6 +61,8 @@ class FakeRedis:
 
     def set(self, key, value):
         self.n_set += 1
+        if getattr(self, "fail_writes", False):
+            raise ConnectionError("injected: redis unavailable")
         if isinstance(value, bytes):
             b = value
         elif isinstance(value, str):
@@ -121,6 +123,8 @@ class FakeMongoCollection:
 
     def replace_one(self, flt, replacement, upsert=False):
         self.n_replace += 1
+        if getattr(self, "fail_writes", False):
+            raise ConnectionError("injected: mongodb unavailable")
         _bson_check(replacement)
         doc = copy.deepcopy(replacement)
         i = self._match(flt)
@@ -141,6 +145,8 @@ class _FakeZarrDataset:
         if idx != 0:
             raise IndexError(idx)
         self.n_set += 1
+        if getattr(self, "fail_writes", False):
+            raise OSError("injected: zarr store unavailable")
         self.blob = self.codec.encode(value)
 
     def __getitem__(self, idx):
@@ -165,6 +171,8 @@ class FakeZarrGroup:
         self.n_require += 1
         if shape != 1 or dtype != "object" or object_codec is None:
             raise HarnessError("fake zarr: unexpected require_dataset arguments")
+        if getattr(self, "fail_writes", False):
+            raise OSError("injected: zarr store unavailable")
         if overwrite or name not in self.sets:
             self.sets[name] = _FakeZarrDataset(object_codec)
         return self.sets[name]
